@@ -13,7 +13,7 @@ extra = ""
 if rnd > 1 and used:
     extra = ("\nThis is round %d. Changes already produced in earlier rounds (do NOT repeat these functions or ideas; find different ones):\n  - " % rnd
              + "\n  - ".join(used)
-             + "\nFor this round look further afield: helper functions in other modules that the property silently depends on; behaviour that differs only for one dtype (float32, complex, integer), one dimension, one composite rank (>= 2, or size-1 axes), one non-default keyword argument, the second call on the same object (state / caching / aliasing of caller data), an input at a boundary (zero, exactly equal values, an empty word or list, a repeated label), or the interaction of two call sites that each look fine alone. At least one of your changes should be a 'two cooperating sites' or 'needs a sequence of calls' change." + (" In round 3 and later at least one change should alter the result only slightly but clearly beyond rounding (a relative error between 1e-6 and 1e-2 for some inputs: a truncated series, a dropped small term, single precision sneaking into one intermediate, an approximate comparison that is too generous), and at least one should sit in a code path reached only through a public function that the earlier changes did not go through." if rnd >= 3 else "") + "\n")
+             + "\nFor this round look further afield: helper functions in other modules that the property silently depends on; behaviour that differs only for one dtype (float32, complex, integer), one dimension, one composite rank (>= 2, or size-1 axes), one non-default keyword argument, the second call on the same object (state / caching / aliasing of caller data), an input at a boundary (zero, exactly equal values, an empty word or list, a repeated label), or the interaction of two call sites that each look fine alone. At least one of your changes should be a 'two cooperating sites' or 'needs a sequence of calls' change." + (" In round 3 and later at least one change should alter the result only slightly but clearly beyond rounding (a relative error between 1e-6 and 1e-2 for some inputs: a truncated series, a dropped small term, single precision sneaking into one intermediate, an approximate comparison that is too generous), and at least one should sit in a code path reached only through a public function that the earlier changes did not go through." if rnd == 3 else "") + (" In this round think like a maintainer doing one of these refactors and getting one corner wrong: (a) replacing a Python loop by vectorised NumPy (broadcast axes, einsum subscripts, keepdims, np.take_along_axis), (b) adding memoisation or reusing a scratch buffer, (c) changing a default argument or the order of keyword arguments, (d) 'simplifying' a numerically careful formula, (e) special handling of empty input (a composite of shape (0,), an empty word list, an automaton without edges), of the lowest dimension or of dimension >= 4, (f) input arrays that are non-contiguous, read-only, Fortran-ordered or have negative strides, or that are shared between two objects (the same Point in two Segments, one automaton used by two representations), (g) an exception type or a silently returned NaN where a result is due. Use at least three different letters among your changes." if rnd >= 4 else "") + "\n")
 print(f"""You are testing how good a (hidden) verification harness is. You get one semantic property of the Python library tjweisman/geometry_tools (numpy toolkit for hyperbolic/projective geometry, isometries, group representations, Coxeter groups, finite-state automata, matplotlib drawing) and your own scratch git worktree of the library at {wt} (a detached worktree; edit files there freely; never touch /repo, never look at or touch /verif or any other /tmp/seed_* directory; never use `git stash` - the stash is shared with other worktrees of the same repository that other people are using right now; save a change with `git diff > file` and undo it with `git checkout -- .`).
 
 PROPERTY {pid}: {p['title']}
